@@ -138,10 +138,27 @@ def replay_worker(blocks):
 
 
 def spec_to_code(run, quick):
+    import threading
     stats = {}
-    for name, cfg in (('ast', 'Parse_ast_quick.cfg' if quick else 'Parse_ast.cfg'),
-                      ('raw', 'Parse_raw_quick.cfg' if quick else 'Parse_raw_thorough.cfg')):
-        r = run.tlc('MC_Parse', cfg, dump=True, timeout=3000, name='parse-' + name)
+    cfgs = (('ast', 'Parse_ast_quick.cfg' if quick else 'Parse_ast.cfg'),
+            ('raw', 'Parse_raw_quick.cfg' if quick else 'Parse_raw_thorough.cfg'))
+    results, errors = {}, {}
+    st0, tr0 = run.states, run.transitions          # run.tlc updates the counters unlocked: recomputed below
+
+    def one(name, cfg):
+        try:
+            results[name] = run.tlc('MC_Parse', cfg, dump=True, timeout=3000, name='parse-' + name, workers=8)
+        except BaseException as e:      # noqa - re-raised in the main thread
+            errors[name] = e
+    ths = [threading.Thread(target=one, args=c) for c in cfgs]
+    [t.start() for t in ths]
+    [t.join() for t in ths]
+    for name, e in errors.items():
+        raise e
+    run.states = st0 + sum(x.distinct for x in results.values())
+    run.transitions = tr0 + sum(max(x.generated - x.init, 0) for x in results.values())
+    for name, cfg in cfgs:
+        r = results[name]
         blocks = final_blocks(r.dump)
         os.remove(r.dump)
         n = nopen = nfail = 0
